@@ -14,6 +14,15 @@ CLAIMED = {
          "evaluates the statement on the implementation and supplies replays.",
     note=TB + "lxml tokenising and event validation are outside the model; Python re.match is tabulated for the model.",
     technique="Coq proof over an executable Gallina model + model/implementation correspondence (vm_compute)", ref='5 C14'),
+ 'C19': dict(
+    text="Theorem over the root-children bookkeeping model for EVERY schedule of 'child received'/'end event processed' "
+         "actions (every chunking / reader block size) and every sequence of ontology and event children of any length: "
+         "retained <= 3 + undelivered at every callback, del root[1] never fails, <= 2 elements remain at the end; model "
+         "tied to the code by comparing len(root) / index of the delivered element observed inside real callbacks (streams "
+         "up to 3000 children quick, 30000 thorough; pull, pull-from-file, push in several chunkings).",
+    note=TB + "lxml's tree construction order (children appended at start tag, end events in document order) is the model's "
+         "schedule assumption; real process memory is not modelled; foreign top-level elements are outside the quantifier.",
+    technique="Coq invariant proof over all schedules + model/implementation correspondence (vm_compute)", ref='5 C19'),
 }
 props = [json.loads(l) for l in open(os.path.join(V, 'properties.jsonl'))]
 checks, na = [], []
